@@ -341,6 +341,9 @@ impl PhoneticSuggestion {
         self.user_autocorrect
             .get(term)
             .map(String::as_str)
+            // The phonetic parser only understands ASCII text, so ignore
+            // an user defined entry which it can not convert.
+            .filter(|correct| correct.is_ascii())
             .or_else(|| data.search_corrected(term))
     }
 }
